@@ -48,7 +48,8 @@ InputIntact(fed, what) ==
 FromWritten ==
     IF written = {} THEN TRUE
     ELSE \A j \in DOMAIN Ln.pts :
-            IF [t |-> Ln.pts[j].t, k |-> Ln.pts[j].k, v |-> Ln.pts[j].v, h |-> Ln.pts[j].h, i |-> Ln.pts[j].i, g |-> Ln.g] \in written
+            IF [t |-> Ln.pts[j].t, k |-> Ln.pts[j].k, v |-> Ln.pts[j].v, h |-> Ln.pts[j].h, i |-> Ln.pts[j].i,
+                r |-> Ln.pts[j].r, pg |-> Ln.pts[j].pg, s |-> Ln.pts[j].s, g |-> Ln.g] \in written
             THEN TRUE
             ELSE PrintT(<<"MISMATCH", "a point of the window batch is not a written point (input modified)", Ln.pts[j]>>) /\ FALSE
 
@@ -68,6 +69,7 @@ TrBatch ==
            r == EndB(cfg, s2, g)
            ref == RefBatch(cfg, g, Ln.tmax, Ln.pts) IN
        /\ Consistent(r.outs, ref, Ln)
+       /\ Assert(MagEnvOK(cfg, Ln.pts), <<"DRIVER-ERROR: multipliers of the magnitude base where the definition is not linear", Ln>>)
        /\ st' = r.st /\ emitted' = r.outs /\ refEmitted' = ref
        /\ exp' = exp \o r.outs
     /\ InputIntact(Ln.pts, "batch") /\ FromWritten
@@ -79,7 +81,7 @@ TrPoint ==
     /\ IsEv("Point")
     /\ LET g == Ln.g
            c == cur[g]
-           p == [t |-> Ln.t, k |-> Ln.k, v |-> Ln.v, h |-> Ln.h, i |-> Ln.i]
+           p == [t |-> Ln.t, k |-> Ln.k, v |-> Ln.v, h |-> Ln.h, i |-> Ln.i, r |-> Ln.r, pg |-> Ln.pg, s |-> Ln.s]
            first == c.n = 0
            newrun == first \/ p.t # c.t
            run == IF newrun THEN <<>> ELSE c.pts
@@ -91,7 +93,7 @@ TrPoint ==
        /\ exp' = exp \o r.outs
        /\ cur' = [cur EXCEPT ![g] = [t |-> p.t, pts |-> Append(run, p),
                                      all |-> IF cfg.fn \in Trans THEN Append(c.all, p) ELSE <<>>, adv |-> 0, n |-> c.n + 1]]
-    /\ InputIntact([t |-> Ln.t, k |-> Ln.k, v |-> Ln.v, h |-> Ln.h, i |-> Ln.i, g |-> Ln.g], "point")
+    /\ InputIntact([t |-> Ln.t, k |-> Ln.k, v |-> Ln.v, h |-> Ln.h, i |-> Ln.i, r |-> Ln.r, pg |-> Ln.pg, s |-> Ln.s, g |-> Ln.g], "point")
     /\ UNCHANGED <<cfg, mode, open, nb, written>>
 
 Expected == SelectSeq(exp, LAMBDA x : ExpN(cfg, x) = 1)
@@ -101,8 +103,12 @@ DrainOK ==
     IF Ln.stop # "" THEN PrintT(<<"MISMATCH", "the task died", Ln.stop>>) /\ FALSE
     ELSE IF Len(O) # Len(X) THEN PrintT(<<"MISMATCH", "number of messages: expected", Len(X), "observed", Len(O), X, O>>) /\ FALSE
     ELSE \A j \in DOMAIN X :
-            IF ExpOK(cfg, X[j], O[j]) THEN TRUE
-            ELSE PrintT(<<"MISMATCH", "message", j, "expected from", X[j], "observed", O[j]>>) /\ FALSE
+            IF ~ExpOK(cfg, X[j], O[j])
+            THEN PrintT(<<"MISMATCH", "message", j, "expected from", X[j], "observed", O[j]>>) /\ FALSE
+            ELSE IF "mag" \in DOMAIN Ln /\ ~MagOK(cfg, X[j], Ln.mag[j])
+            THEN PrintT(<<"MISMATCH", "magnitude: multiplier of the base or accuracy (ulps, tolerance)", j, UlpTol(cfg.fn),
+                          "expected from", X[j], "observed", O[j], Ln.mag[j]>>) /\ FALSE
+            ELSE TRUE
 
 (* order of the points inside distinct/top/bottom batches is not promised by *)
 (* the property: reported, never a verdict                                    *)
